@@ -119,7 +119,7 @@ def sym_search(eng, pattern, text, flags=0, module=re, n=None, may_fail=True, ta
             return None
     s, e = eng.fresh_int(f"ms_{tag}"), eng.fresh_int(f"me_{tag}")
     eng.add(lo <= s, s <= e, e <= hi)
-    if a0 and not (flags & re.M):
+    if (a0 and not (flags & re.M)) or (newline_free and starts_with_dotstar(pattern, flags)):
         eng.add(s == lo)
     if a1 and not (flags & re.M):
         # `$` also matches before a final newline (unless the caller knows the subject has none)
@@ -327,7 +327,92 @@ def pattern_facts(pattern, flags=0):
         return out
 
     always = mandatory(list(parsed))
-    out = {nm: {"at_start": at_start.get(nm, False), "width": width.get(nm, (0, None)), "always": nm in always, "before": sorted(b for a, b in before if a == nm)} for nm in set(names.values())}
+
+    # first character of a group: code-point ranges, when the group's first item is a mandatory single character
+    from vf import rex as _rex
+
+    first = {}
+
+    def first_class(seq):
+        for op, av in seq:
+            if op == sc.LITERAL:
+                return _rex.literal_ranges(av, f)
+            if op == sc.IN:
+                try:
+                    return _rex.class_ranges(av, f)
+                except Exception:
+                    return None
+            if op == sc.SUBPATTERN:
+                return first_class(list(av[3]))
+            if op in (sc.MAX_REPEAT, sc.MIN_REPEAT) and av[0] >= 1:
+                return first_class(list(av[2]))
+            return None
+        return None
+
+    def collect(seq):
+        for op, av in seq:
+            if op == sc.SUBPATTERN:
+                if av[0] in names:
+                    fc = first_class(list(av[3]))
+                    nm = names[av[0]]
+                    if nm in first and first[nm] != fc:
+                        first[nm] = None  # copies of the name disagree
+                    else:
+                        first[nm] = fc
+                collect(list(av[3]))
+            elif op == sc.BRANCH:
+                for b in av[1]:
+                    collect(list(b))
+            elif op in (sc.MAX_REPEAT, sc.MIN_REPEAT):
+                collect(list(av[2]))
+
+    collect(list(parsed))
+
+    # groups that are exactly  X{n}  for a single-character X: every position has class X
+    uniform = {}
+
+    def uni(seq):
+        for op, av in seq:
+            if op == sc.SUBPATTERN:
+                if av[0] in names:
+                    sub = list(av[3])
+                    if len(sub) == 1 and sub[0][0] in (sc.MAX_REPEAT, sc.MIN_REPEAT) and sub[0][1][0] == sub[0][1][1] and len(list(sub[0][1][2])) == 1:
+                        fc = first_class(list(sub[0][1][2]))
+                        if fc:
+                            uniform[names[av[0]]] = (fc, sub[0][1][0]) if names[av[0]] not in uniform or uniform[names[av[0]]] == (fc, sub[0][1][0]) else None
+                uni(list(av[3]))
+            elif op == sc.BRANCH:
+                for b in av[1]:
+                    uni(list(b))
+            elif op in (sc.MAX_REPEAT, sc.MIN_REPEAT):
+                uni(list(av[2]))
+
+    uni(list(parsed))
+
+    # layout of the top-level sequence: named groups and single characters at fixed offsets from each other
+    def flat(seq):
+        out_ = []
+        for op, av in seq:
+            if op == sc.AT:
+                continue
+            if op == sc.SUBPATTERN and av[0] is None and not av[1] and not av[2]:
+                out_ += flat(list(av[3]))
+            elif op == sc.SUBPATTERN and av[0] in names:
+                out_.append(("group", names[av[0]]))
+            elif op in (sc.LITERAL, sc.IN):
+                fc = first_class([(op, av)])
+                out_.append(("char", fc) if fc else ("var",))
+            elif op == sc.ANY:
+                out_.append(("char", None))
+            else:
+                out_.append(("var",))
+        return out_
+
+    layout = flat(list(parsed))
+    if sum(1 for x in layout if x[0] == "group") == 0:
+        layout = []
+    out = {nm: {"at_start": at_start.get(nm, False), "width": width.get(nm, (0, None)), "always": nm in always, "before": sorted(b for a, b in before if a == nm), "first": first.get(nm), "uniform": uniform.get(nm)} for nm in set(names.values())}
+    out["__layout__"] = layout
     _FACTS[key] = out
     return out
 
@@ -371,6 +456,35 @@ def always_matches(pattern, flags=0):
     return r
 
 
+_DOTSTAR = {}
+
+
+def starts_with_dotstar(pattern, flags=0):
+    """the pattern begins with `.*` (possibly inside groups): on a subject without line breaks a search then
+    matches at the subject's start (leftmost match; `.*` absorbs any prefix)."""
+    key = (pattern, int(flags))
+    if key not in _DOTSTAR:
+        from vf.symre import rename_duplicate_groups
+
+        try:
+            seq = list(sp.parse(rename_duplicate_groups(pattern)[0], int(flags) & (re.I | re.X | re.S | re.M)))
+        except Exception:
+            seq = []
+        r = False
+        while seq:
+            op, av = seq[0]
+            if op == sc.SUBPATTERN:
+                seq = list(av[3])
+                continue
+            if op == sc.AT:
+                seq = seq[1:]
+                continue
+            r = op == sc.MAX_REPEAT and av[0] == 0 and av[1] >= sc.MAXREPEAT and len(list(av[2])) == 1 and list(av[2])[0][0] == sc.ANY
+            break
+        _DOTSTAR[key] = r
+    return _DOTSTAR[key]
+
+
 def apply_facts(eng, m, pattern, flags=0):
     """sharpen a SymMatch with the AST-derived facts (lazily: when a group is first inspected)."""
     facts = pattern_facts(pattern, flags)
@@ -392,6 +506,14 @@ def apply_facts(eng, m, pattern, flags=0):
             eng.add(ge - gs >= lo)
             if hi is not None:
                 eng.add(ge - gs <= hi)
+            if facts[k].get("uniform"):
+                rs_, n_ = facts[k]["uniform"]
+                for d_ in range(n_):
+                    eng.facts.add_solid(gs + d_, rs_)
+            elif facts[k].get("first") and lo >= 1:
+                # the group's first character is known up to its class: it cannot be stripped away by a strip()
+                # over characters outside that class
+                eng.facts.add_solid(gs, facts[k]["first"])
             # ordering against groups already decided
             for other, ov in m.g.items():
                 if other == k or ov in ("lazy", None) or other not in facts:
@@ -403,4 +525,29 @@ def apply_facts(eng, m, pattern, flags=0):
         return v
 
     m._grp = grp
+    # fixed layout: characters and groups of the top-level sequence at known offsets from each other
+    layout = facts.get("__layout__") or []
+    if layout:
+        dup = [x[1] for x in layout if x[0] == "group"]
+        if len(dup) == len(set(dup)):
+            for direction in (1, -1):
+                ref, off, known = (m.s, 0, True) if direction == 1 else (m.e, 0, True)
+                for item in (layout if direction == 1 else reversed(layout)):
+                    if item[0] == "var":
+                        known = False
+                    elif item[0] == "char":
+                        if known:
+                            pos = ref + off if direction == 1 else ref - off - 1
+                            if item[1]:
+                                eng.facts.add_solid(z3.simplify(pos), item[1])
+                            off += 1
+                    else:
+                        v = grp(item[1])
+                        if v is None:
+                            known = False
+                            continue
+                        gs, ge = v
+                        if known:
+                            eng.add((gs == ref + off) if direction == 1 else (ge == ref - off))
+                        ref, off, known = (ge, 0, True) if direction == 1 else (gs, 0, True)
     return m
